@@ -43,6 +43,27 @@ class Chunk(AText):
 
     def __init__(self, chars):
         AText.__init__(self, AText.TEXT if chars else AText.EMPTY, "chunk", chars=list(chars))
+        chunk = self
+
+        def pad(side):
+            @stub
+            def method(interp, args, kwargs):
+                width = args[0] if args else 0
+                if not isinstance(width, int) or isinstance(width, bool):
+                    raise Undecided("padding to %r" % (width,))
+                missing = max(0, width - len(chunk.chars))
+                # padding characters are not characters of the stream (position -1): a row holding them does not
+                # reproduce the input
+                filler = [Ch("X", -1) for _ in range(missing)]
+                if side == "left":
+                    return Chunk(list(chunk.chars) + filler)
+                if side == "right":
+                    return Chunk(filler + list(chunk.chars))
+                return Chunk(filler[: missing // 2] + list(chunk.chars) + filler[missing // 2:])
+
+            return method
+
+        self.methods = {"ljust": pad("left"), "rjust": pad("right"), "center": pad("center")}
 
     def text(self):
         return "".join({"CR": "\r", "LF": "\n", "X": "x"}[c.kind] for c in self.chars)
